@@ -218,3 +218,91 @@ func onceRegistryKey(c *Ctx, rule string) {
 	c.count("once_registry_accesses", n)
 	c.floor(rule, 2)
 }
+
+// renderStateSingle: one render has ONE state object. It is created by InitializeContext only, stored under the
+// context key only there (and only when none is present), and never copied by value. A copy gives a component a
+// private state: clearing the children slot, or marking a class / script / once-handle as rendered, on the copy is
+// invisible to the rest of the render (the caller's slot keeps the block and the next sibling receives it).
+func renderStateSingle(c *Ctx, rule string) {
+	p := c.pkg(".")
+	info := p.TypesInfo
+	st := renderStateType(c)
+	if st == nil {
+		c.viol(rule, "anchor-lost:render-state-type", "", "render-state struct not found")
+		return
+	}
+	// the context key: the constant used in InitializeContext's context.WithValue
+	var keyObj types.Object
+	init := findFunc(p, "", "InitializeContext")
+	ast.Inspect(init.Body, func(x ast.Node) bool {
+		if call, ok := x.(*ast.CallExpr); ok {
+			if fn := calleeOf(info, call); fn != nil && fullName(fn) == "context.WithValue" && len(call.Args) == 3 {
+				if id, ok := ast.Unparen(call.Args[1]).(*ast.Ident); ok {
+					keyObj = info.ObjectOf(id)
+				}
+			}
+		}
+		return true
+	})
+	if keyObj == nil {
+		c.viol(rule, "anchor-lost:context-key", "", "InitializeContext does not store the state with context.WithValue(ctx, <key>, …)")
+		return
+	}
+	nstore, ncopy := 0, 0
+	for _, fd := range allFuncDecls(p) {
+		ast.Inspect(fd.Body, func(x ast.Node) bool {
+			switch x := x.(type) {
+			case *ast.CallExpr:
+				if fn := calleeOf(info, x); fn != nil && fullName(fn) == "context.WithValue" && len(x.Args) == 3 {
+					if id, ok := ast.Unparen(x.Args[1]).(*ast.Ident); ok && info.ObjectOf(id) == keyObj {
+						nstore++
+						c.check(fd == init, rule, funcKey(p, fd)+"|stores-render-state", c.pos(x.Pos()), "the state is stored under the context key by InitializeContext only",
+							fd.Name.Name+" stores a render state under the context key itself ("+types.ExprString(x.Args[2])+"): the render now has two state objects, and what is cleared or marked as rendered in one (children slot, classes, scripts, once-handles) is not seen through the other")
+					}
+				}
+			case *ast.StarExpr:
+				if t := info.TypeOf(x.X); t != nil {
+					if pt, ok := t.(*types.Pointer); ok && types.Identical(pt.Elem(), st) {
+						if tv, ok := info.Types[x]; ok && tv.IsValue() {
+							// a dereference used as a value (not as the base of a selector or an assignment target)
+							ncopy++
+							c.viol(rule, funcKey(p, fd)+"|copies-render-state", c.pos(x.Pos()), fd.Name.Name+" copies the render state by value ("+types.ExprString(x)+"): the copy's children slot and bookkeeping are detached from the render's")
+						}
+					}
+				}
+			}
+			return true
+		})
+	}
+	// InitializeContext stores only when no state is present: its WithValue is preceded by a test that returns
+	fcfg := newFnCFG(init.Body, info)
+	guarded := false
+	var store ast.Node
+	ast.Inspect(init.Body, func(x ast.Node) bool {
+		if call, ok := x.(*ast.CallExpr); ok {
+			if fn := calleeOf(info, call); fn != nil && fullName(fn) == "context.WithValue" {
+				store = call
+			}
+		}
+		return true
+	})
+	ast.Inspect(init.Body, func(x ast.Node) bool {
+		if is, ok := x.(*ast.IfStmt); ok && store != nil && blockAlwaysReturns(is.Body) && fcfg.dominates(is, store) {
+			mentionsKey := false
+			ast.Inspect(is, func(y ast.Node) bool {
+				if id, ok := y.(*ast.Ident); ok && info.ObjectOf(id) == keyObj {
+					mentionsKey = true
+				}
+				return true
+			})
+			if mentionsKey {
+				guarded = true
+			}
+		}
+		return true
+	})
+	c.check(guarded, rule, funcKey(p, init)+"|initialises-only-when-absent", c.pos(init.Pos()), "an existing state is returned unchanged", "InitializeContext replaces an existing render state: nested components would each get a fresh state (children slot and dedup bookkeeping reset)")
+	c.count("render_state_stores", nstore)
+	c.count("render_state_copies", ncopy)
+	c.floor(rule, 2)
+}
